@@ -126,3 +126,13 @@ Proof.
     split; [apply (end_entered c s NT H0 R RN tag j T L D) | apply (end_exited c s NT H0 R RN tag j T L D)].
   - intros e He. apply (end_log_kinds c s NT H0 R e He).
 Qed.
+
+(* whenever the caller is past wait() of every stage, all gate queues are empty (and stay so): an item orphaned by the race between
+   the completion callback and a concurrent enqueue has been dispatched by wait()'s drain loop *)
+Theorem orphan_recovered c s :
+  no_throw c -> (0 < nstages c)%nat -> reach (mstep c) (init c) s -> result (sh s) <> None ->
+  Forall (fun g => g_q g = []) (gates (sh s)).
+Proof.
+  intros NT H0 R RN. destruct (phase_invariants c s NT H0 R) as (W & _ & O & _ & _ & (_ & RS & _)).
+  exact (closed_queues_empty c s W O (RS RN)).
+Qed.
